@@ -4,8 +4,10 @@ use serde_json::Value;
 pub mod c01;
 pub mod c02;
 pub mod c03;
+pub mod c04;
 pub mod c08;
 pub mod c10;
+pub mod c11;
 
 pub const ALL: &[&str] = &[
     "C01", "C02", "C03", "C04", "C05", "C06", "C07", "C08", "C09", "C10", "C11", "C12", "C13", "C14", "C15", "C16", "C17", "C18", "C19",
@@ -16,8 +18,10 @@ pub fn run(ctx: &mut Ctx) {
         "C01" => c01::run(ctx),
         "C02" => c02::run(ctx),
         "C03" => c03::run(ctx),
+        "C04" => c04::run(ctx),
         "C08" => c08::run(ctx),
         "C10" => c10::run(ctx),
+        "C11" => c11::run(ctx),
         other => {
             eprintln!("{other}: no engine built yet");
             std::process::exit(2);
@@ -30,8 +34,10 @@ pub fn replay(ctx: &mut Ctx, stage: &str, case: &Value) -> Result<(), String> {
         "C01" => c01::replay(ctx, stage, case),
         "C02" => c02::replay(ctx, stage, case),
         "C03" => c03::replay(ctx, stage, case),
+        "C04" => c04::replay(ctx, stage, case),
         "C08" => c08::replay(ctx, stage, case),
         "C10" => c10::replay(ctx, stage, case),
+        "C11" => c11::replay(ctx, stage, case),
         other => Err(format!("{other}: no engine built yet")),
     }
 }
